@@ -435,8 +435,22 @@ func acceptDigest(c *Ctx, rule string) {
 				}
 				good := one != nil && one.Args[0].Kind == core.KAppend
 				if good {
-					a, b := strip(one.Args[0].Args[0]), one.Args[0].Args[1]
-					good = a.Kind == core.KParam && b.Kind == core.KLoad && b.Args[0].Kind == core.KGlobal && b.Args[0].Ref == interface{}(keyGUID)
+					// the digest input is key || keyGUID, assembled by appends onto []byte(key) or onto an empty buffer
+					base, seq := appendChain(one.Args[0])
+					switch b := strip(base); {
+					case b.Kind == core.KParam:
+						seq = append([]*core.Term{b}, seq...)
+					case b.IsNil():
+					case b.Kind == core.KMake && len(b.Args) > 0:
+						if z, isC := b.Args[0].Int64(); !isC || z != 0 {
+							good = false
+						}
+					default:
+						good = false
+					}
+					if good {
+						good = len(seq) == 2 && strip(seq[0]).Kind == core.KParam && seq[1].Kind == core.KLoad && seq[1].Args[0].Kind == core.KGlobal && seq[1].Args[0].Ref == interface{}(keyGUID)
+					}
 				}
 				if good {
 					// the digest array is stored in a local and sliced whole for the encoder
